@@ -87,7 +87,7 @@ def main():
         base = os.path.join(VERIF, 'mutants')
         paths = sorted(os.path.join(base, f) for f in os.listdir(base) if f.endswith('.diff'))
     if a.only:
-        paths = [p for p in paths if a.only in p]
+        paths = [p for p in paths if any(o in p for o in a.only.split(','))]
     with ThreadPoolExecutor(a.jobs) as ex:
         res = list(ex.map(lambda p: run_one(p, a.count, a.workers, a.tier), paths))
     for r in res:
